@@ -234,7 +234,7 @@ pub fn def_c10() -> PropDef {
         id: "C10",
         run: |ctx| {
             // checker level, random
-            let cases = ctx.tier.pick(20_000, 500_000);
+            let cases = ctx.tier.pick(60_000, 600_000);
             ctx.pt_run("checker-random", cases, dom_case_strategy(), |c| serde_json::to_value(c).unwrap(), eval_dom);
             // checker level, bounded exhaustive
             let len = ctx.tier.pick(3, 4);
@@ -265,11 +265,11 @@ pub fn def_c10() -> PropDef {
             }
             ctx.stats.exhaustive.insert(format!("checker-exhaustive: all query/clear sequences of length {len} over 2 keys x 2x2 coordinates x 2 depths x 3 values (50 ops), with and without value"), true);
             // solver level: admissible rules never change the optimum
-            let cases = ctx.tier.pick(10_000, 300_000);
+            let cases = ctx.tier.pick(30_000, 400_000);
             let strat = solve_case_strategy(GenParams::default_small(), ConfigGen { max_width: 3, dom: Some(true), ..Default::default() });
             ctx.pt_run("solver-dominance", cases, strat, |c| serde_json::to_value(c).unwrap(), eval_c10_solver);
             let (rc, sb, bound, mr) = match ctx.tier {
-                Tier::Quick => (400, 2, 1, 400),
+                Tier::Quick => (1_500, 3, 1, 400),
                 Tier::Thorough => (10_000, 20, 2, 30_000),
             };
             par::run_prop(ctx, "C10", par::ParGen { dom: Some(true), ..Default::default() }, rc, sb, bound, mr);
@@ -469,7 +469,7 @@ pub fn def_c11() -> PropDef {
     PropDef {
         id: "C11",
         run: |ctx| {
-            let cases = ctx.tier.pick(30_000, 600_000);
+            let cases = ctx.tier.pick(100_000, 800_000);
             ctx.pt_run("fringe-random", cases, fringe_case_strategy(), |c| serde_json::to_value(c).unwrap(), eval_fringe);
             let len = ctx.tier.pick(5, 6);
             let alphabet = fringe_alphabet();
@@ -494,7 +494,7 @@ pub fn def_c11() -> PropDef {
             }
             ctx.stats.exhaustive.insert(format!("fringe-exhaustive: all push/pop/clear sequences of length {len} over 2 states x 2 depths x 2 values x 2 upper bounds (18 ops), both fringes"), true);
             // solver level: models whose state does not embed the depth
-            let cases = ctx.tier.pick(10_000, 300_000);
+            let cases = ctx.tier.pick(30_000, 400_000);
             let mut p = GenParams::default_small();
             p.embed = Some(false);
             let strat = solve_case_strategy(p, ConfigGen { max_width: 3, ..Default::default() });
@@ -648,7 +648,7 @@ pub fn def_c17() -> PropDef {
                 }
                 ctx.stats.exhaustive.insert("grid: all pairs lb <= ub over a grid of infinities, 0, +-1, +-7, +-1e9, +-2^k (k = 8..62) and their neighbours".into(), true);
             }
-            let cases = ctx.tier.pick(30_000, 1_000_000);
+            let cases = ctx.tier.pick(100_000, 1_000_000);
             let v = prop_oneof![
                 2 => any::<isize>(),
                 2 => -1000isize..1000,
@@ -964,7 +964,7 @@ pub fn def_c18() -> PropDef {
         id: "C18",
         run: |ctx| {
             // sequential, random
-            let cases = ctx.tier.pick(10_000, 300_000);
+            let cases = ctx.tier.pick(40_000, 400_000);
             let op = prop_oneof![
                 10 => (0u8..CACHE_STATES, 0usize..CACHE_DEPTHS, 0isize..3, any::<bool>()).prop_map(|(state, depth, value, explored)| CacheOp::Update { state, depth, value, explored }),
                 2 => (0usize..CACHE_DEPTHS).prop_map(CacheOp::ClearLayer),
@@ -985,11 +985,11 @@ pub fn def_c18() -> PropDef {
             });
             ctx.stats.exhaustive.insert(format!("cache-seq-exhaustive: all update/clear_layer/clear sequences of length {len} over 2 states x 2 depths x 3 values x explored (27 ops), all keys read after every step"), true);
             // concurrent phases (real threads; the OS owns the schedule): few cases, several rounds each
-            let cases = ctx.tier.pick(60, 1_500);
+            let cases = ctx.tier.pick(150, 1_500);
             let upd = (0u8..2, 0isize..4, any::<bool>());
             let strat = prop::collection::vec(prop::collection::vec(upd, 1..12), 2..=16).prop_map(|threads| ConcCacheCase { threads });
             ctx.pt_run("cache-concurrent", cases, strat, |c| serde_json::to_value(c).unwrap(), eval_conc_cache);
-            let cases = ctx.tier.pick(60, 1_500);
+            let cases = ctx.tier.pick(150, 1_500);
             let strat = (1usize..=2, any::<bool>()).prop_flat_map(|(dims, use_value)| {
                 let e = (prop::collection::vec(0i8..=2, dims), 0isize..=2);
                 (prop::collection::vec(prop::collection::vec(e.clone(), 1..8), 2..=16), prop::collection::vec(e, 1..10)).prop_map(move |(threads, probes)| ConcDomCase { spec: GenDomSpec { dims, use_value, key_mode: 0 }, threads, probes })
